@@ -58,6 +58,7 @@ package sample
 //@   requires rand != nil && group != nil
 //@   panic_unreachable_under_requires
 //@   modifies hstate(rand)
+//@   summary scval(result) == scu_from(old(hstate(rand))) && hstate(rand) == hadvu(old(hstate(rand)))
 //@   allocates
 //@   ensures result != nil
 
